@@ -119,7 +119,8 @@ pub fn glwe_roundtrip<const N: usize, const B: usize, const K: usize, const PS: 
         let mut j = 0;
         while j < so {
             o[j] = out.data().at(0, j)[i];
-            assert!(in_digit_range(BO, o[j]), "decrypted limb not a normalised digit");
+            // C08: digit range is promised for equal radices only
+            assert!(BO != B || in_digit_range(BO, o[j]), "decrypted limb not a normalised digit");
             j += 1;
         }
         let rw = horner_w256(&o[..so], BO).shl((w - ob) as u32);
@@ -142,5 +143,98 @@ pub fn glwe_roundtrip<const N: usize, const B: usize, const K: usize, const PS: 
         assert!(NOISE_CALLS == 1, "error sampler not called exactly once");
     }
     core::mem::forget((xe, xa));
+    vsym::reached();
+}
+
+/// Decryption against an independent phase oracle (no stub at all, so every counterexample replays
+/// natively): ciphertext limbs symbolic normalised digits, secret concrete ternary, N = 2 (where the
+/// substituted backend computes exactly the negacyclic product).  The decrypted plaintext, read in
+/// its own radix BO / precision KO, must equal  body + sum_c mask_c * s_c  (negacyclic, exact big
+/// integers) within one unit of its last limb, exactly when it has at least the ciphertext's bits.
+pub fn glwe_decrypt_oracle<const B: usize, const K: usize, const BO: usize, const KO: usize, const AR: usize>(rank: usize, sp: u64) {
+    const N: usize = 2;
+    let module: Module<Probe> = Module::<Probe>::new(N as u64);
+    let size = K.div_ceil(B);
+    let mut ct = GLWE::alloc(Degree(N as u32), Base2K(B as u32), TorusPrecision(K as u32), Rank(rank as u32));
+    {
+        let h = 1i64 << (B - 1);
+        let raw = ct.data_mut().raw_mut();
+        let mut i = 0;
+        while i < raw.len() {
+            let d = vsym::i64();
+            vsym::assume(d >= -h && d < h);
+            raw[i] = d;
+            i += 1;
+        }
+    }
+    let mut sk = GLWESecret::alloc(Degree(N as u32), Rank(rank as u32));
+    install_secret::<N>(&mut sk, rank, sp);
+    let mut s = [[0i64; N]; 3];
+    {
+        let mut q = sp;
+        let mut c = 0;
+        while c < rank {
+            let mut i = 0;
+            while i < N {
+                let d = (q % 3) as i64;
+                q /= 3;
+                s[c][i] = if d == 2 { -1 } else { d };
+                i += 1;
+            }
+            c += 1;
+        }
+    }
+    let mut skp = module.glwe_secret_prepared_alloc(Rank(rank as u32));
+    module.glwe_secret_prepare(&mut skp, &sk);
+    let mut out = GLWEPlaintext::alloc(Degree(N as u32), Base2K(BO as u32), TorusPrecision(KO as u32));
+    {
+        // prior plaintext content arbitrary
+        let raw = out.data_mut().raw_mut();
+        let mut i = 0;
+        while i < raw.len() {
+            raw[i] = vsym::i64();
+            i += 1;
+        }
+    }
+    let dec_bytes = module.glwe_decrypt_tmp_bytes(&ct) + 128;
+    let mut arena = Buf::<AR>([0x5a5a_5a5a_5a5a_5a5ai64; AR]);
+    assert!(dec_bytes <= 8 * AR, "GRID ERROR: arena");
+    set_arena(arena.bytes().as_ptr());
+    {
+        let scratch: &mut Scratch<Probe> = Scratch::<Probe>::from_bytes(&mut arena.bytes_mut()[..dec_bytes]);
+        module.glwe_decrypt(&ct, &mut out, &skp, scratch);
+    }
+    let so = KO.div_ceil(BO);
+    let (cb, ob) = (size * B, so * BO);
+    let mut i = 0;
+    while i < N {
+        // oracle: limb j of the phase, coefficient i
+        let mut ph = [0i128; 8];
+        let mut j = 0;
+        while j < size {
+            let mut acc = ct.data().at(0, j)[i] as i128;
+            let mut c = 0;
+            while c < rank {
+                let a = ct.data().at(c + 1, j);
+                let (a0, a1, s0, s1) = (a[0] as i128, a[1] as i128, s[c][0] as i128, s[c][1] as i128);
+                acc += if i == 0 { a0 * s0 - a1 * s1 } else { a0 * s1 + a1 * s0 };
+                c += 1;
+            }
+            ph[j] = acc;
+            j += 1;
+        }
+        let mut o = [0i64; 8];
+        let mut j = 0;
+        while j < so {
+            o[j] = out.data().at(0, j)[i];
+            // C08: digit range is promised for equal radices only
+            assert!(BO != B || in_digit_range(BO, o[j]), "decrypted limb not a normalised digit");
+            j += 1;
+        }
+        let r = horner_w256(&o[..so], BO);
+        let a = horner_w256_i128(&ph[..size], B);
+        assert!(torus_rel(r, ob, a, cb, 0), "decrypted plaintext differs from body + <mask, s> (one unit of its last limb allowed only when it is narrower)");
+        i += 1;
+    }
     vsym::reached();
 }
